@@ -125,6 +125,18 @@ def k_decode(ctx, raw):
             return ctx.fail("hdr.decode", "invalid_accepted", kind, case, observed=C.hdr_fields(u))
         if not isinstance(u, want_cls) or (kind == "width" and isinstance(u, BytesTooShortError)):
             return ctx.fail("hdr.decode", "wrong_error", f"{kind}:{type(u).__name__}", case, error=repr(u))
+    # the raw-buffer length helper on the same octets and on every shorter prefix of their fixed part: the length the width
+    # octet encodes, or a documented refusal of what it cannot read (it looks at the fixed part only, whatever the version)
+    for n in (len(b), 4, 3, 2, 1, 0):
+        pre = b[:n]
+        ok2, v = attempt(X.PduHeader.header_len_from_raw, pre)
+        ctx.ev("hdr.len")
+        if len(pre) >= 4:
+            wexp = 4 + 2 * (((pre[3] >> 4) & 7) + 1) + ((pre[3] & 7) + 1)
+            if not ok2 or v != wexp:
+                ctx.fail("hdr.len", "header_len_from_raw_differs_from_width_octet", "value" if ok2 else exc_sig(v), case, observed=repr(v), expected=wexp)
+        elif ok2 or not isinstance(v, ValueError):
+            ctx.fail("hdr.len", "header_len_from_raw_on_short_input", f"n={n}/" + ("accepted" if ok2 else type(v).__name__), case, observed=repr(v))
 
 
 def k_refuse(ctx, what, value):
